@@ -80,7 +80,8 @@ def execute(profile, seed=None, cfg=None, events=None, tier="quick", time_limit=
   old = signal.signal(signal.SIGALRM, _alarm)
   old_prof = signal.signal(signal.SIGPROF, _cpu_alarm)
   signal.alarm(int(time_limit) * 10)
-  signal.setitimer(signal.ITIMER_PROF, float(time_limit))
+  # (repeating: code that swallows the exception once is interrupted again a second later)
+  signal.setitimer(signal.ITIMER_PROF, float(time_limit), 1.0)
   sim = None
   try:
     rng = random.Random(seed) if seed is not None else None
